@@ -31,6 +31,7 @@ type c07Env struct {
 	vouched  map[*txInfo]time.Duration // harness time just before the first trusted arrival
 	restarts int
 	lifeSpansRestart map[*txInfo]bool
+	conflictKnown    map[*txInfo]time.Duration // harness time after a conflicting tx had been processed by the node
 }
 
 func (c *c07Env) startChecker() {
@@ -78,6 +79,16 @@ func TestVerif_C05Delay(t *testing.T) {
 	})
 }
 
+// C12 with the real delay checker: a transaction only untrusted peers sent is never reported safe.
+func TestVerif_C12Delay(t *testing.T) {
+	c07Body(verifkit.NewReport("C12"), verifkit.N(32, 500), func(sig string) (string, bool) {
+		if sig == "C07/safe-without-trusted-vouching" {
+			return "C12/delay-checker/untrusted-tx-reported-safe", true
+		}
+		return "", false
+	})
+}
+
 func c07Body(rep *verifkit.Report, n int, mapSig func(string) (string, bool)) {
 	rep.Rule = "each scenario: a synced node with SafeTxDelay=300 ms and the real checkTxDelays goroutine; 3-6 transactions over 4 outpoints arrive from generated sources (untrusted first, trusted later, trusted only, local), conflicting arrivals are placed before the expiry, inside the checker's fetch->save window (hook node.safe.fetched holds it open for 40 ms and signals the harness) and after it; confirmations race the checker; clean restarts before/after the safe report. Per-txid notification trajectories of both handlers are judged (never safe&unsafe, cancelled=>unsafe, no safe after unsafe, unconfirmed safe only if the trusted peer had sent inv/tx, not before first_send+delay, at most once; bounded liveness: within 20 checker iterations counted at hook node.safe.iteration). Non-trivial = a conflict or a restart or an untrusted-first arrival; distinct by step-shape string"
 	rep.Assumptions = []string{"age is measured from the harness' clock just before the first send, which over-approximates the node's own first-seen time: measured < delay is a definite violation", "liveness is counted in checker iterations (hook), the wall-clock watchdog only yields inconclusive", "transactions whose life spans a restart carry no liveness obligation"}
@@ -115,7 +126,7 @@ func c07Body(rep *verifkit.Report, n int, mapSig func(string) (string, bool)) {
 			rep.Inconc(ci, err.Error())
 			continue
 		}
-		c := &c07Env{w: w, first: map[*txInfo]time.Duration{}, vouched: map[*txInfo]time.Duration{}, lifeSpansRestart: map[*txInfo]bool{}}
+		c := &c07Env{w: w, first: map[*txInfo]time.Duration{}, vouched: map[*txInfo]time.Duration{}, lifeSpansRestart: map[*txInfo]bool{}, conflictKnown: map[*txInfo]time.Duration{}}
 		c.startChecker()
 		ops := w.uni.Order[:4]
 		fp := ""
@@ -168,13 +179,35 @@ func c07Body(rep *verifkit.Report, n int, mapSig func(string) (string, bool)) {
 						// the checker holds one transaction between fetch and save: which one is
 						// not visible here, so every still unconflicted base transaction gets its
 						// conflict now
+						var inBlock []*txInfo
+						viaBlock := r.Intn(2) == 0
 						for _, o := range base {
 							if o != t && !conflicted[o] && len(o.confirmedAt) == 0 {
 								ox := w.makeTx("none", []wire.OutPoint{o.spends[0]})
-								c.arrive(ox, "untrusted-bare")
+								if viaBlock {
+									inBlock = append(inBlock, ox)
+								} else {
+									c.arrive(ox, "untrusted-bare")
+									c.conflictKnown[o] = c.now()
+								}
 								conflicted[o] = true
 								conflicted[ox] = true
 							}
+						}
+						if viaBlock {
+							// the conflicting transactions are confirmed by a block (cancel path)
+							x2 := w.makeTx("none", []wire.OutPoint{t.spends[0]})
+							inBlock = append(inBlock, x2)
+							w.mine(inBlock, true)
+							for _, o := range base {
+								if conflicted[o] {
+									c.conflictKnown[o] = c.now()
+								}
+							}
+							conflicted[t] = true
+							conflicted[x2] = true
+							fp += "K"
+							continue
 						}
 					case <-time.After(time.Duration(c07DelayMS+250) * time.Millisecond):
 						fp += "Xn"
@@ -184,6 +217,7 @@ func c07Body(rep *verifkit.Report, n int, mapSig func(string) (string, bool)) {
 					fp += "Xa"
 				}
 				c.arrive(x, []string{"trusted-bare", "untrusted-bare"}[r.Intn(2)])
+				c.conflictKnown[t] = c.now()
 				conflicted[t] = true
 				conflicted[x] = true
 			case k < 6: // confirmation racing the checker
@@ -260,6 +294,9 @@ func c07Body(rep *verifkit.Report, n int, mapSig func(string) (string, bool)) {
 					if st.Safe && st.MerkleProof == nil {
 						safeCount++
 						gotSafe = true
+						if known, ok := c.conflictKnown[ti]; ok && ev.At > known && !ti.local {
+							w.find("C07", "C07/safe-despite-known-conflict", fmt.Sprintf("%s: reported safe at %v although a transaction spending one of its outpoints had been processed by the node at %v", ti.name, ev.At.Round(time.Millisecond), known.Round(time.Millisecond)))
+						}
 						if !ti.local {
 							v, vouched := c.vouched[ti]
 							if !vouched || v > ev.At {
